@@ -9,7 +9,7 @@ Domain  : executions of (a) the mixed campaign of vp.harness.dialects_h (three P
           control commands, live edits, cancel/force requests on offered items, a UOD command whose exec function raises),
           (b) the method x control-schedule scenarios of C08/C09 (vp.harness.ctrl_scen), (c) the block/clock scenarios of
           C07 (tick increments 0 .. 5 s).  Tracking.get_runlog() is sampled after EVERY tick of every case.
-Oracle  : (P) producible     get_runlog() does not raise            runlog-raised:<exc>:<state pattern of the offending record>
+Oracle  : (P) producible     get_runlog() does not raise            runlog-raised:<exc>:<conclusive state>><state recorded after it>
           (S) sorted         items ordered by start                  unsorted
           (I) ids            item ids pairwise distinct              duplicate-id:<names of the two items' instructions>
           (T) times          end is None or end >= start             ends-before-start
@@ -51,7 +51,7 @@ ASSUMPTIONS = [
 ]
 TIERS = {
     "quick": {"examples": int(os.environ.get("VERIF_C15_EXAMPLES", "12000")), "budget_s": 150},   # env: development aid for mutant runs
-    "thorough": {"examples": 200000, "budget_s": 1400, "deep": True},
+    "thorough": {"examples": int(os.environ.get("VERIF_C15_THOROUGH_EXAMPLES", "200000")), "budget_s": 1400, "deep": True},
 }
 CONCLUSIVE = ("completed", "failed", "cancelled")
 
@@ -67,7 +67,10 @@ def _from_ctrl(case):
     if case.get("autostart", True):
         steps = steps + [["user", "Start"], ["tick"]]
     for s in case["steps"]:
-        steps.append(["tick"] if s[0] == "tick" else ["user", s[1]])
+        if s[0] == "tick":
+            steps.append(["tick"])
+        elif s[0] == "user" and s[1] in D.USER_OPS:
+            steps.append(["user", s[1]])
     return {"method": lines, "steps": steps, "epilogue": "none", "mix": "ctrl_scen", "autostart": False, "inputs": {}}
 
 
@@ -75,7 +78,13 @@ def _from_c07(case):
     lines = [[l.id, l.text] for l in G.render(case["tree"])]
     steps = []
     for s in case["steps"]:
-        steps.append(["tick", float(s[1])] if s[0] == "tick" else ["user", s[1]])
+        if s[0] == "tick":
+            steps.append(["tick", float(s[1])])
+        elif s[0] == "user" and s[1] in D.USER_OPS:
+            steps.append(["user", s[1]])
+        elif s[0] == "fault" and s[1] == "inject-boom":
+            steps.append(["inject", "Boom: x"])
+        # other step kinds of that generator (hardware read/write faults) have no counterpart in this campaign: dropped
     return {"method": lines, "steps": steps, "epilogue": "none", "mix": "c07", "autostart": True, "inputs": {}}
 
 
